@@ -12,12 +12,23 @@
      - no two allocated Allocation objects overlap inside one memory object (block, pool, dedicated and
        multi allocations alike).
    The component facts come from the TLSF / linear metadata theorems through VamInvMeta.meta_live_sound.
-   OPEN (not yet covered by this file): the steps of a defragmentation run (Vam.dstep), and the statement that
-   the placement alignment is at least the requested alignment and the list's minimum alignment (it is
-   max(request, minimum) by construction in VamBlockList.bl_allocate; not yet carried in the invariant). *)
+   C02_placed_alignment: every successful allocation call (multiAllocateMemory, which AllocateMemory,
+   AllocateMemorySlice, CreateBuffer/Image and AllocateMemoryFor* go through) places each block allocation with
+   alignment max(requested alignment, minimum alignment of its block list); with the first theorem
+   (offset mod a_align = 0) the offset is a multiple of both.
+   Defragmentation (theorems C02_defrag_...): the same three statements hold in every state of a history that also
+   contains BeginDefragmentation / BeginDefragPass / EndDefragPass (any MoveOperation per move) / Finish, each
+   with any fault oracle (VamDefragThm.reachD), in particular between BeginDefragPass and EndDefragPass (the
+   temporaries are ordinary block allocations there) and after the moves were completed.  PARTIAL, explicit in
+   reachD: ordinary calls only while no pass is open; BeginDefragPass only on block lists of granularity 1
+   (always the case when bufferImageGranularity is 1: C02_defrag_domain_gran1).  The move collection itself is
+   Defrag.collect_moves (C15/C07 development), run on the projection of the block list; the bridge
+   (VamDefragPass.project_wf, writeback_inv) shows that the allocator invariant gives the planner's
+   precondition and that the planner's postcondition gives the allocator invariant back. *)
 From Coq Require Import ZArith List Lia.
-From Arsenal Require Import VamDev VamBlockList Vam VamInvMeta VamInv VamInvThm VamProps.
-From Arsenal Require Bits.
+From Arsenal Require Import VamDev VamBlockList VamDefrag Vam VamInvMeta VamInv VamInvStep VamInvThm VamProps VamPropsOps
+  VamDefragStep VamDefragPass VamDefragThm.
+From Arsenal Require Bits Defrag.
 Import ListNotations.
 Open Scope Z_scope.
 
@@ -44,6 +55,14 @@ Theorem C02_alloc_list_type : forall c v,
   exists l, get_blist v (a_lref a) = Some l /\ bl_type l = a_type a.
 Proof. intros c v Hc R. apply (alloc_list_type c). apply reach_inv; auto. Qed.
 Print Assumptions C02_alloc_list_type.
+
+Theorem C02_placed_alignment : forall c v size align typeBits reqDed prefDed ded bufimg usage flags0 req pref ctb pool sub slots v',
+  cfg_ok c -> reach c v -> NoDup slots -> dead_slots v slots ->
+  multi_allocate c v size align typeBits reqDed prefDed ded bufimg usage flags0 req pref ctb pool sub slots = (v', OK tt) ->
+  forall s, In s slots -> a_kind (get_alloc v' s) = 1 ->
+  exists l, get_blist v' (a_lref (get_alloc v' s)) = Some l /\ a_align (get_alloc v' s) = Z.max align (bl_minalign l).
+Proof. intros c v size align typeBits reqDed prefDed ded bufimg usage flags0 req pref ctb pool sub slots v' Hc R. apply placed_alignment; auto. apply reach_inv; auto. Qed.
+Print Assumptions C02_placed_alignment.
 
 (* non-vacuity: a device with one 1 MiB heap and two memory types; create the allocator, make a block
    allocation, a dedicated one and a failing one (injected vkAllocateMemory fault): the state is reachable and
@@ -97,3 +116,46 @@ Proof.
   eapply reach_step; [exact R2| |exact E3| |]; [rewrite Ev2, Ev1, Ev0; vm_compute; split; [discriminate|reflexivity]|..];
     (assert (r3 = RErr (-2)) by (rewrite Ev2, Ev1, Ev0 in E3; vm_compute in E3; congruence); subst; discriminate).
 Qed.
+
+(* ---------------------------------------------------------------- histories with defragmentation *)
+
+Theorem C02_defrag_valid_range : forall c v run,
+  cfg_ok c -> reachD c v run -> forall s a, slot_is v s a ->
+  exists d off,
+    find_mem (m_mems (v_m v)) (a_mem a) = Some d /\ dm_type d = a_type a /\
+    find_offset v a = Some off /\ 0 <= off /\ 0 < a_size a /\ off + a_size a <= dm_size d /\
+    (a_kind a = 1 -> 0 < a_align a /\ off mod a_align a = 0) /\
+    (a_kind a = 2 -> off = 0 /\ a_size a = dm_size d).
+Proof. intros c v run Hc R. apply (alloc_denotes_valid_range c). apply (reachD_inv c Hc v run R). Qed.
+Print Assumptions C02_defrag_valid_range.
+
+Theorem C02_defrag_no_overlap : forall c v run,
+  cfg_ok c -> reachD c v run ->
+  forall s1 a1 s2 a2, slot_is v s1 a1 -> slot_is v s2 a2 -> s1 <> s2 -> a_mem a1 = a_mem a2 ->
+  forall o1 o2, find_offset v a1 = Some o1 -> find_offset v a2 = Some o2 ->
+  o1 + a_size a1 <= o2 \/ o2 + a_size a2 <= o1.
+Proof. intros c v run Hc R. apply (alloc_no_overlap c). apply (reachD_inv c Hc v run R). Qed.
+Print Assumptions C02_defrag_no_overlap.
+
+Theorem C02_defrag_list_type : forall c v run,
+  cfg_ok c -> reachD c v run -> forall s a, slot_is v s a ->
+  exists l, get_blist v (a_lref a) = Some l /\ bl_type l = a_type a.
+Proof. intros c v run Hc R. apply (alloc_list_type c). apply (reachD_inv c Hc v run R). Qed.
+Print Assumptions C02_defrag_list_type.
+
+(* while a pass is open, every pending move is between two distinct allocated block allocations of the list, of
+   equal size and alignment, and no Allocation object takes part in two moves *)
+Theorem C02_defrag_pending_moves : forall c v rn,
+  cfg_ok c -> reachD c v (Some rn) ->
+  forall dc, nth_z (dr_ctxs rn) (dr_progress rn) = Some dc -> moves_ok v (dc_lr dc) (Defrag.c_moves (dc_ctx dc)).
+Proof.
+  intros c v rn Hc R dc Hn. destruct (reachD_inv c Hc v (Some rn) R) as (_ & (_ & _ & H)). apply (H _ _ Hn). reflexivity.
+Qed.
+Print Assumptions C02_defrag_pending_moves.
+
+(* with bufferImageGranularity 1 the domain condition of BeginDefragPass is just "no pass is open" *)
+Theorem C02_defrag_domain_gran1 : forall c v run o,
+  cfg_ok c -> eff_granularity c = 1 -> reachD c v run -> drun_idle run -> dop_ok v run o.
+Proof. intros c v run o Hc E R Hi. apply (dop_ok_eff c); auto. apply (reachD_inv c Hc v run R). Qed.
+Print Assumptions C02_defrag_domain_gran1.
+
